@@ -20,7 +20,7 @@ ID = 'C12'
 LEVEL = 'exploration'
 WORKERS = {'quick': 10, 'thorough': 14}
 BUDGET_S = {'quick': 90, 'thorough': 600}
-REQUIRED_COUNTERS = ['perm_twins', 'superset_twins', 'foreign_twins', 'auto_sets_checked', 'hostile_values_fed', 'per_class_rows_compared', 'oracle_entries']
+REQUIRED_COUNTERS = ['perm_twins', 'superset_twins', 'foreign_twins', 'auto_sets_checked', 'hostile_values_fed', 'per_class_rows_compared', 'oracle_entries', 'partial_twins', 'per_word_twins']
 RULE = ('a case = (subject in anova|nicv|snr|mia|tbuild|tstatic|tdpa, relation perm|superset|foreign|auto, class list with gaps and values '
         'up to 2^17-1, data dtype among the six supported integer dtypes, undeclared values drawn over the whole dtype range incl. negatives, '
         '>= 2^17 and the dtype maximum, first-batch maxima on both sides of 0/9/64/255, precision, sub-seed); non-trivial = a twin pair or '
@@ -56,11 +56,14 @@ def cases(tier, seed):
                     c['maxv'] = AUTO_MAX[r % len(AUTO_MAX)] if reps > 1 else AUTO_MAX[(k + seed) % len(AUTO_MAX)]
                 out.append(c)
                 k += 1
+    for name in ('anova', 'nicv', 'snr', 'mia'):
+        for r in range(2):
+            out.append(dict(gen='rel', subject=name, rel='partial', sub=core.subseed('C12p', seed, name, r), must=True))
     rs = np.random.default_rng(core.subseed('C12r', seed))
     n_rand = 250 if tier == 'quick' else 6000
     for j in range(n_rand):
         name = NAMES[int(rs.integers(len(NAMES)))]
-        rels = ['perm'] if name in ('tstatic', 'tdpa') else (['perm', 'foreign', 'auto'] if name == 'tbuild' else ['perm', 'superset', 'foreign', 'foreign', 'auto'])
+        rels = ['perm'] if name in ('tstatic', 'tdpa') else (['perm', 'foreign', 'auto'] if name == 'tbuild' else ['perm', 'superset', 'foreign', 'foreign', 'auto', 'partial'])
         c = dict(gen='rel', subject=name, rel=rels[int(rs.integers(len(rels)))], sub=int(rs.integers(2 ** 62)))
         if c['rel'] == 'auto':
             c['maxv'] = AUTO_MAX[int(rs.integers(len(AUTO_MAX)))]
@@ -123,6 +126,8 @@ def run_case(case):
         return _template_perm(t, case, rng)
     prec = ['float32', 'float64'][int(rng.integers(2))]
     W = 1 if name == 'tbuild' else int(rng.integers(1, 4))
+    if rel == 'partial':
+        W = int(rng.integers(2, 4))
     T = int(rng.integers(1, 6))
     K = int(rng.choice([2, 3, 5, 9, 10, 20]))
     n = int(rng.choice([K + 3, 40, 120]))
@@ -256,6 +261,40 @@ def run_case(case):
         if name in ('anova', 'nicv', 'snr'):
             t.check(tol.same(base_obj.counters, obj2.counters), 'undeclared_value_counted_in_a_class',
                     lambda: dict(info, counters_without=np.asarray(base_obj.counters).tolist()[:2], counters_with=np.asarray(obj2.counters).tolist()[:2]))
+    elif rel == 'partial':
+        # undeclared values scattered cell by cell: a trace may be undeclared for one word and declared for another;
+        # each word's result must be the one of a run that only ever saw that word
+        fv = _foreign_values(rng, ddt, declared, (n, W))
+        if fv is None or W < 2:
+            return t.result(nontrivial=False, sig='nopartial', sample=info)
+        mask = rng.random((n, W)) < 0.25
+        mask[:, int(rng.integers(W))] |= rng.random(n) < 0.2
+        mask[mask.all(axis=1), 0] = False                      # no row undeclared on every word: the point is the mixed rows
+        d2 = np.where(mask, fv.astype(ddt), data).astype(ddt)
+        t.count('hostile_values_fed', int(mask.sum()))
+        info.update(cells_undeclared=int(mask.sum()), rows_mixed=int((mask.any(1) & ~mask.all(1)).sum()))
+        _, res = _run(spec, traces, d2, sizes, kseq)
+        t.count('partial_twins')
+        got = np.asarray(res[0][1])
+        for w in range(W):
+            _, rw = _run(spec, traces, np.ascontiguousarray(d2[:, [w]]), sizes, kseq)
+            t.count('per_word_twins')
+            one = np.asarray(rw[0][1])[0]
+            if name == 'mia':
+                # same counts, but the entropy sums run over arrays of another shape: compared up to rounding of the float64 sums
+                same_w = got[w].shape == one.shape and bool(np.all(np.abs(np.asarray(got[w], float) - np.asarray(one, float)) <= 1e-12 * (1 + np.abs(np.asarray(one, float)))))
+            else:
+                same_w = tol.same(got[w], one)
+            t.check(same_w, 'undeclared_value_on_another_word_changes_result', lambda: dict(info, word=w, diff=tol.first_diff(got[w], one)))
+        if name == 'mia':
+            val, _ = oracles.mutual_information(traces, d2, declared, spec['bin_edges'])
+            bad = np.abs(np.asarray(got, float) - val) > 1e-9 * (1 + np.abs(val))
+            t.check(not bad.any(), 'mia_differs_from_by_value_definition', lambda: dict(info, got=np.asarray(got, float).tolist()[:2], expected=val.tolist()[:2]))
+        else:
+            val, sc2, undef = oracles.partitioned(name, traces, d2, declared)
+            dec = ~undef
+            tol.compare_tol(t, np.where(dec, np.asarray(got, float), 0), np.where(dec, val, 0), tol.C_E * tol.eps_of(prec) * sc2, 'result_differs_from_by_value_definition', info,
+                            undecidable_above=tol.UNDECIDABLE_E)
     sig = f"{rel}|{name}|{prec}|{ddt}|{tdtype}|{K}|{n}x{T}x{W}|{len(sizes)}|{max(declared)}"
     return t.result(sig=sig, sample=dict(info, comparisons=t.checks))
 
